@@ -4,7 +4,8 @@ SPEC = {
     'coq_dir': 'C05',
     'claimed': False,
     'theorems': [
-        'C05_refuted', 'C05_refuted_fork', 'C05_prune_keeps_live_partial', 'C05_guard_nonvacuous',
+        'C05_refuted', 'C05_refuted_fork', 'C05_prune_keeps_live_partial', 'C05_prune_keeps_live_partial_inputs',
+        'C05_guard_nonvacuous',
         'C05_prune_deletes_only_superseded', 'C05_commit_tree_is_C01_set',
     ],
     'allowed_axioms': [],
